@@ -493,6 +493,16 @@ def main():
     open(gen, "w").write(text)
     json.dump({"items": ctx.items}, open(os.path.join(BUILD, unit + ".extract.json"), "w"), indent=1)
 
+    # 1b. functions whose full specification is only checked by the bounded witness search
+    bounded = meta.get("bounded", {})
+    bounded_hashes = {}
+    try:
+        for pth in bounded.get("functions", []):
+            f_, comps_ = asm.parse_path(ctx, pth)
+            bounded_hashes[pth] = rsx.locate(ctx.src(f_), comps_).sha()
+    except Lost as e:
+        undecided("lost-anchor", "bounded function: %s" % e)
+
     # 2. parse
     try:
         fns = parse_file(text, ctx.items)
@@ -578,9 +588,36 @@ def main():
     kfs = {k["obligation"]: k for k in kf_all.get("findings", []) if k.get("property") == prop}
     if args.update_baseline:
         good = sorted(o for o in obs if o not in failed)
-        json.dump({"unit": unit, "obligations": good}, open(base_path, "w"), indent=1)
+        json.dump({"unit": unit, "obligations": good, "bounded_hashes": bounded_hashes}, open(base_path, "w"), indent=1)
         print("baseline written: %d obligations (%d failing, not listed)" % (len(good), len(failed)))
-    baseline = set(json.load(open(base_path))["obligations"]) if os.path.exists(base_path) else set()
+    base_json = json.load(open(base_path)) if os.path.exists(base_path) else {"obligations": []}
+    baseline = set(base_json["obligations"])
+    # bounded stand-in: run the witness enumerator when one of the bounded-only functions changed, or in the thorough tier
+    bounded_info = None
+    if bounded.get("functions"):
+        changed = sorted(p_ for p_, h_ in bounded_hashes.items() if base_json.get("bounded_hashes", {}).get(p_) != h_)
+        ran = False
+        bw, bsumm, blog = [], None, "not run: bounded-only functions unchanged since the baseline (quick tier)"
+        if (changed or tier == "thorough") and os.environ.get("VERIF_NO_WITNESS") != "1" and not args.update_baseline:
+            bw, bsumm, blog = run_witness(meta, unit)
+            ran = True
+        bounded_info = dict(label="BOUNDED (never counted as proved)", statement=bounded.get("statement", ""), bound=bounded.get("bound", ""),
+                            functions=bounded.get("functions"), changed_since_baseline=changed, ran=ran, log=blog, summary=bsumm,
+                            disagreements=len(bw), samples=bw[:3])
+        if bw:
+            rp_path = os.path.join(OUT, "replay", "%s.bounded.json" % unit)
+            json.dump(dict(property=prop, unit=unit, obligation="%s.bounded-witness" % unit, witnesses=bw, summary=bsumm,
+                           note="bounded enumeration against the real crate: the public API disagrees with the executable transcription of the textbook definition on these inputs",
+                           rerun="./check %s --tier thorough" % unit), open(rp_path, "w"), indent=1)
+            ev = dict(property_id=prop, tier=tier, seed=seed, level="proof",
+                      coverage=dict(obligations=len(obs), discharged=len([o for o in obs if o not in failed]), checker_cmd=runs[0]["cmd"], trusted_base=[],
+                                    bounded=bounded_info, evaluations=(bsumm or {}).get("evaluations", 1), distinct_nontrivial=len(bw)),
+                      assumptions=[], wall_s=round(time.time() - t_start, 2), violations=len(bw))
+            json.dump(ev, open(ev_path, "w"), indent=1)
+            w0 = bw[0]
+            print("VIOLATION property=%s replay=%s obligation=%s.bounded-witness.%s input=%s (bounded enumeration on the real code)" % (
+                prop, rp_path, unit, w0.get("op", "?"), json.dumps({k: v for k, v in w0.items() if k != "witness"})))
+            sys.exit(1)
 
     if undec and not failed:
         undecided("resource-limit", "\n".join("%s: %s" % u for u in undec))
@@ -635,6 +672,7 @@ def main():
             samples=samples,
             known_findings=[kfs[o] for o in known_hit],
             undecided_subclaims=meta.get("undecided_subclaims", []),
+            bounded=bounded_info,
             baseline_obligations=len(baseline),
             failing_obligations=sorted(failed.keys()),
         ),
